@@ -60,6 +60,7 @@ func sameSlice[T any](a, b []T) bool             { return len(a) == len(b) }
 func sameVal[T any](a, b T) bool                 { return true }
 func sameBase[T any](a, b []T) bool              { return true }
 func freshBase[T any](a []T) bool                { return true }
+func present(x any) bool                          { return x != nil }
 func uninterp[T any](name string, args ...any) T { var z T; return z }
 func outCount() int                              { return 0 }
 func outFirst() any                              { return nil }
@@ -389,6 +390,63 @@ func IsBoolNode(n Node) bool {
 // precondition that every caller (grammar action or NewUnaryOrNumber) must
 // establish from what the lexer guarantees about the token text
 
+// every constructor returns a new node, and the nodes it is given become its
+// parts as they are (C03: the tree is what the grammar action assembled)
+
+//@ func NewConst
+//@ props C03 C04
+//@ requires [C03 C04] known-constant: kind >= ConstRoot && kind <= ConstNull
+//@ ensures [C03 C04] fresh: r0 != nil && fresh(r0) && r0.kind == kind && r0.next == nil
+
+//@ func NewMethod
+//@ props C03 C04
+//@ requires [C03 C04] known-method: name >= MethodAbs && name <= MethodString
+//@ ensures [C03 C04] fresh: r0 != nil && fresh(r0) && r0.name == name && r0.next == nil
+
+//@ func NewString
+//@ props C03 C04
+//@ ensures [C03 C04] fresh: r0 != nil && fresh(r0) && r0.quotedString != nil && r0.quotedString.str == str && r0.quotedString.next == nil
+
+//@ func NewVariable
+//@ props C03 C04
+//@ ensures [C03 C04] fresh: r0 != nil && fresh(r0) && r0.quotedString != nil && r0.quotedString.str == name && r0.quotedString.next == nil
+
+//@ func NewKey
+//@ props C03 C04
+//@ ensures [C03 C04] fresh: r0 != nil && fresh(r0) && r0.quotedString != nil && r0.quotedString.str == key && r0.quotedString.next == nil
+
+//@ func NewBinary
+//@ props C03 C04
+//@ requires [C03 C04] known-operator: op >= BinaryAnd && op <= BinaryDecimal
+//@ requires [C03 C04] left-operand: op != BinaryDecimal ==> present(left)
+//@ requires [C03 C04] right-operand: op != BinaryDecimal && op != BinarySubscript ==> present(right)
+//@ ensures [C03 C04] fresh: r0 != nil && fresh(r0) && r0.op == op && r0.left == left && r0.right == right && r0.next == nil
+
+//@ func NewUnary
+//@ props C03 C04
+//@ requires [C03 C04] known-operator: op >= UnaryExists && op <= UnaryTimestampTZ
+//@ requires [C03 C04] operand: op < UnaryDateTime ==> present(node)
+//@ ensures [C03 C04] fresh: r0 != nil && fresh(r0) && r0.op == op && r0.operand == node && r0.next == nil
+
+//@ func NewArrayIndex
+//@ props C03 C04
+//@ requires [C03 C04] subscripts: forall(func(i int) bool { return implies(0 <= i && i < len(subscripts), is[*BinaryNode](subscripts[i]) && as[*BinaryNode](subscripts[i]).Operator() == BinarySubscript) })
+//@ ensures [C03 C04] fresh: r0 != nil && fresh(r0) && sameSlice(r0.subscripts, subscripts) && r0.next == nil
+
+//@ func LinkNodes
+//@ props C03 C04
+//@ trusted "appends nodes[1:] to the end of the chain that starts at nodes[0] and returns nodes[0]; the body (a walk along an existing chain) is not verified, its preconditions are checked at every call site under contract"
+//@ requires [C04] some: len(nodes) >= 1
+//@ requires [C04] all-present: forall(func(i int) bool { return implies(0 <= i && i < len(nodes), present(nodes[i])) })
+//@ ensures [C03 C04] head: r0 == nodes[0] && present(r0)
+
+//@ func NewRegex
+//@ props C03 C04 C12
+//@ requires [C03 C04] operand: present(expr)
+//@ ensures [C04] node-or-error: (r1 == nil) == (r0 != nil)
+//@ ensures [C03 C04] fresh: r1 == nil ==> fresh(r0) && r0.operand == expr && r0.pattern == pattern && r0.next == nil
+//@ ensures [C04 C12] validated: r1 == nil ==> uninterp[error]("ext_regexp_syntax_Parse_r1", pattern, r0.flags.syntaxFlags()) == nil
+
 //@ func NewInteger
 //@ props C04 C03
 //@ requires [C04] convertible: uninterp[error]("ext_strconv_ParseInt_r1", integer, 0, 64) == nil
@@ -414,6 +472,7 @@ func IsBoolNode(n Node) bool {
 //@ requires node != nil
 //@ requires sign-only: op == UnaryPlus || op == UnaryMinus
 //@ assumes parts: (is[*NumericNode](node) ==> as[*NumericNode](node).numberNode != nil) && (is[*IntegerNode](node) ==> as[*IntegerNode](node).numberNode != nil)
+//@ ensures [C03 C04] some-node: present(r0)
 //@ ensures [C03] plus-is-identity: op == UnaryPlus && node.Next() == nil && (is[*NumericNode](node) || is[*IntegerNode](node)) ==> r0 == node
 //@ ensures [C03] chained-literal-not-folded: node.Next() != nil ==> is[*UnaryNode](r0) && as[*UnaryNode](r0).op == op && as[*UnaryNode](r0).operand == node
 //@ ensures [C03] other-operand: !(is[*NumericNode](node) || is[*IntegerNode](node)) ==> is[*UnaryNode](r0) && as[*UnaryNode](r0).op == op && as[*UnaryNode](r0).operand == node
